@@ -258,7 +258,7 @@ if __name__ == '__main__':
 
         # Calculate the weighted l2 + sobolev error of the residual.
         residual = error_estimator.residual(
-            elems, Phi, SL, M0u0, g, SL_exact_eval=args.single_layer_exact)
+            elems, Phi, SL, M0u0, g, SL_exact_eval=SL.pw_exact)
 
         if args.l2:
             time_begin = time.time()
